@@ -20,11 +20,11 @@ TABLE = {
   ('C01_iter_from', 'IterP', 'coll_iter_from_spec'), ('C01_tree_get', 'WulP', 'get_rec_canon'),
   ('C01_flush_tree', 'WulP', 'wul_canon'),
   ('C01_flush', 'CollCtorP', 'apply_spec'), ('C01_pop_front', 'CollCtorP', 'pop_front_spec'),
-  ('C01_quad_every_configuration_refines', 'QuadP', 'quad_every_configuration_refines'), ('C01_eleven_kinds', 'QuadP', 'every_configuration_refines11'), ('C01_with_builder_interleaved', 'BuilderSysP', 'interleave_refines'), ('C01_builder_does_not_change_answers', 'BuilderSysP', 'interleave_same_answers'),
+  ('C01_capacity_zero_refines', 'CapZeroP', 'every_configuration_refines_cap0'), ('C01_capacity_zero_closed_u64', 'CapZeroP', 'run_refines_cap0'), ('C01_quad_every_configuration_refines', 'QuadP', 'quad_every_configuration_refines'), ('C01_eleven_kinds', 'QuadP', 'every_configuration_refines11'), ('C01_with_builder_interleaved', 'BuilderSysP', 'interleave_refines'), ('C01_builder_does_not_change_answers', 'BuilderSysP', 'interleave_same_answers'),
   ('C01_step_refines', 'Refine', 'step_refines'), ('C01_run_refines', 'Refine', 'run_refines'), ('C01_spec_det', 'Refine', 'spec_det'),
  ],
  'C02': [
-  ('C02_quad_root_is_container_root', 'QuadP', 'ek_quad_root_container'), ('C02_quad_root_is_not_its_bytes', 'QuadP', 'quad_root_not_bytes'), ('C02_quad_list_root', 'QuadP', 'quad_list_root_spec'), ('C02_closed_h256', 'Instances', 'root_h256'), ('C02_nested_element_root_is_ssz', 'NestedP', 'mroot_is_merkle'), ('C02_nested_element_root_is_inner_list_root', 'NestedP', 'nl_root_is_inner_list_root'), ('C02_scenario', 'Instances', 'scenario_spec'),
+  ('C02_quad_root_is_container_root', 'QuadP', 'ek_quad_root_container'), ('C02_quad_root_is_not_its_bytes', 'QuadP', 'quad_root_not_bytes'), ('C02_quad_list_root', 'QuadP', 'quad_list_root_spec'), ('C02_capacity_zero_roots', 'CapZeroP', 'cap0_roots'), ('C02_closed_h256', 'Instances', 'root_h256'), ('C02_nested_element_root_is_ssz', 'NestedP', 'mroot_is_merkle'), ('C02_nested_element_root_is_inner_list_root', 'NestedP', 'nl_root_is_inner_list_root'), ('C02_scenario', 'Instances', 'scenario_spec'),
   ('C02_canon_merkle', 'HashP', 'shash_canon_merkle'), ('C02_merkleize_pad', 'HashP', 'merkleize_pad'),
   ('C02_depth', 'HashP', 'depth_is_chunk_depth'), ('C02_tree_hash', 'HashP', 'tree_hash_exact'),
   ('C02_root', 'HashP', 'root_is_ssz_hinv'), ('C02_root_run', 'HashP', 'root_is_ssz_run'),
@@ -52,7 +52,7 @@ TABLE = {
   ('C05_repeat', 'RepeatP', 'repeat_canon_list_depth'), ('C05_repeat_too_long', 'RepeatP', 'repeat_too_long'),
   ('C05_bulk', 'IfaceP', 'bulk_spec'), ('C05_builder_full', 'BuilderP', 'push_full'),
   ('C05_new_list', 'CollCtorP', 'list_try_from_iter_spec'), ('C05_new_list_full', 'CollCtorP', 'list_try_from_iter_full'), ('C05_repeat_list', 'CollCtorP', 'list_repeat_spec'), ('C05_repeat_list_full', 'CollCtorP', 'list_repeat_full'), ('C05_vector_new_wrong', 'CollCtorP', 'vector_new_wrong'), ('C05_to_vector_wrong', 'CollCtorP', 'vector_try_from_wrong_spec'), ('C05_to_vector', 'CollCtorP', 'vector_try_from_spec'),
-  ('C05_ssz', 'CollObsP', 'list_from_ssz_strict_spec'), ('C05_bounds', 'Refine', 'reachable_bounds'),
+  ('C05_ssz', 'CollObsP', 'list_from_ssz_strict_spec'), ('C05_bounds', 'Refine', 'reachable_bounds'), ('C05_capacity_zero_is_legal', 'CapZeroP', 'capacity_ok_0'), ('C05_capacity_zero_only_empty', 'CapZeroP', 'cap0_registers_empty'),
  ],
  'C06': [
   ('C06_build_canonical', 'BuilderP', 'build_canon'), ('C06_repeat_canonical', 'RepeatP', 'repeat_canon'),
@@ -134,7 +134,7 @@ TABLE = {
   ('C15_repeat_total', 'RepeatP', 'repeat_nodes'), ('C15_flush', 'CollCtorP', 'apply_spec'),
   ('C15_pop_front', 'CollCtorP', 'pop_front_spec'), ('C15_to_vector', 'CollCtorP', 'vector_try_from_spec'),
   ('C15_decode_total', 'CollObsP', 'list_from_ssz_strict_spec'), ('C15_step_safe', 'Refine', 'step_safe'), ('C15_no_panic', 'Refine', 'step_no_panic'), ('C15_refines', 'Refine', 'step_refines'), ('C15_bounds', 'Refine', 'reachable_bounds'), ('C15_every_configuration_step', 'ClosureP', 'every_configuration_step'),
-  ('C15_builder_session_no_panic', 'BuilderSysP', 'value_session_no_panic'), ('C15_builder_new_push_total', 'BuilderSysP', 'bop_step'), ('C15_decode_total_and_exact', 'SszDetP', 'ssz_list_decode_iff'),
+  ('C15_capacity_zero_answers', 'CapZeroP', 'cap0_by_theorem'), ('C15_builder_session_no_panic', 'BuilderSysP', 'value_session_no_panic'), ('C15_builder_new_push_total', 'BuilderSysP', 'bop_step'), ('C15_decode_total_and_exact', 'SszDetP', 'ssz_list_decode_iff'),
  ],
  'C16': [
   ('C16_step_sound', 'ConcP', 'astep_sound'), ('C16_any_schedule_safe', 'ConcP', 'any_schedule_safe'),
